@@ -217,6 +217,9 @@ class ElfWriter:
         # appear in ascending order of their virtual address:
         for image in sorted(self.obj.images, key=lambda i: i.address):
             self.align_to(self.page_size)
+            # File offset and virtual address must be congruent modulo the
+            # segment alignment (the page size):
+            self.f.write(bytes(image.address % self.page_size))
             file_offset = self.f.tell()
 
             for section in image.sections:
